@@ -614,6 +614,8 @@ def main():
     for dim in (2, 3):
         configs.append({"kind": "notation", "dim": dim})
     axes = AXES3 if tier == "thorough" else AXES3[:2] + AXES3[3:]
+    # axis-aligned frames other than the identity (signed permutations of the axes: quarter turn about z, cyclic permutation, half turn + swap)
+    axes = list(axes) + [((0, 1, 0), (-1, 0, 0)), ((0, 1, 0), (0, 0, 1))] + ([((0, 0, 1), (0, -1, 0)), ((-1, 0, 0), (0, 0, 1))] if tier == "thorough" else [])
     for ax in axes:
         configs.append({"kind": "frame", "axes": ax})
     configs.append({"kind": "pmat"})
